@@ -22,6 +22,9 @@ uint64_t __llsym_nondet_u64 (const char *name, int idx);
  * case-split form so that table look-ups and comparisons with constants on it
  * are decided without solver calls */
 int32_t  __llsym_choice (const char *name, int idx, int n);
+/* the same input, but the executor explores one path per value and returns it concretely
+ * (for lengths and shapes that drive loops) */
+int32_t  __llsym_pick (const char *name, int idx, int n);
 
 void __llsym_assume (int cond);
 /* query: path condition and not cond; satisfiable => counterexample `id` */
